@@ -19,6 +19,7 @@ func histField(v ssa.Value, field string) bool {
 }
 
 func lenOf(v ssa.Value, pred func(ssa.Value) bool) bool {
+	v = stripConv(resolveOnce(stripConv(v)))
 	call, ok := v.(*ssa.Call)
 	return ok && callName(&call.Call) == "builtin:len" && pred(call.Call.Args[0])
 }
